@@ -374,7 +374,11 @@ fn text_seeds() -> Vec<Seed> {
             add(&format!("repo:{f}"), ext, b[..n].to_vec());
         }
     }
-    // serial-framed variant of a generated trace
+    // generated text seeds: one per line format the text readers know
+    add("gen:logcat_monotonic", "txt", b"     1.123   100   200 I tag: hello\n     2.123   100   200 W other_tag: world 42\n".to_vec());
+    add("gen:logcat_threadtime", "txt", b"--------- beginning of main\n01-01 00:00:01.000  100   100 I first  : ok\n01-01 00:00:02.500  100   101 E second: not ok\n".to_vec());
+    add("gen:genlog", "log", b"[2024-03-09 23:01:31.627] [INF] [conftest] some text: 3.44 %\n[2024-03-09 23:01:32.627] [ERR] [other] more text\n".to_vec());
+    add("gen:asc", "asc", b"date Tue Apr 12 08:55:37 AM 2022\nbase hex timestamps absolute\n//BusMapping: CAN 1 = Bus1\n0.985210 1 36f Rx d 5 f2 f7 fe ff 14 Length = 0 BitCount = 0 ID = 879\n".to_vec());
     v
 }
 
@@ -706,11 +710,11 @@ impl Prop for C03 {
         Meta {
             id: "C03",
             level: "fault_enumeration",
-            rule: "seed corpus = generated DLT traces covering every verbose argument type, non-verbose, header shapes, every control service id (request/response, non-verbose and verbose, with bodies for the parsed ones), FLST/FLDA/FLFI, network traces, lifecycle shapes + the plugin-specific message pool of the C19 explorer (NonVerbose / SOME/IP incl. segmented NWST-NWCH-NWEN / CAN / Muniic / Rewrite hits and near misses, 82 messages) + the first 40 (thorough: 200) messages of each repository .dlt example + the repository .asc/.txt/.log examples (prefixes). Mutation operators, each enumerated completely over every seed: (a) every truncation point, (b) every offset x {00,01,7F,80,FF,b^1,b^80}, (b2) every offset x 16-bit {0,FFFF,1} / 32-bit {0,FFFFFFFF} windows, (c) every recorded header/type-info/length/numeric/service-id/timestamp field x boundary table (service ids: all known ids, flag bytes: all 256 values), (d) every ordered pair splice of generated DLT seeds at message boundaries, (e) every pair of fields at most 8 apart x corner values for the file-transfer seed (thorough: every pair of adjacent field corruptions x full boundary table for control and file-transfer seeds), (b3) text seeds: every offset replaced by a 3-byte UTF-8 character, (g) uncorrupted multi-lifecycle histories: the boot-trace product of the C08 explorer (1 ECU x 1..2 boots, 2 ECUs x up to (2,2) boots x every interleaving) as valid DLT files, (h) every lifecycle event sequence up to depth 3 over the 40-symbol alphabet and up to depth 6 over the suspend/resume alphabet of the C05-C07 explorer (detection + listing only; thorough: depth 4 / 8), (f) grammar products of text lines (incl. all ordered pairs of 14 odd tags incl. short multi-byte ones for logcat and generic logs) (timestamp forms x pid/level/tag/text shapes for logcat, time/channel/id/dlc/data for CAN-ASC incl. header lines, date/level/tag for generic logs). Every case runs the full chain on the real code: reader by extension, header/payload text, argument iteration, to_write, EacStats, lifecycle detection + listing, time sort, 10 filters (matches, match_filters, filter_as_streams), FileTransfer(save)/NonVerbose/SomeIp/CAN/Muniic/Rewrite/Anonymize plugins. Oracle: no panic (overflow checks on), no process death (worker isolation), no allocation request >= 32 MiB whose size the unmutated seeds never request. Non-trivial = at least one message was parsed or a violation occurred.".into(),
+            rule: "seed corpus = generated DLT traces covering every verbose argument type, non-verbose, header shapes, every control service id (request/response, non-verbose and verbose, with bodies for the parsed ones), FLST/FLDA/FLFI, network traces, lifecycle shapes + the plugin-specific message pool of the C19 explorer (NonVerbose / SOME/IP incl. segmented NWST-NWCH-NWEN / CAN / Muniic / Rewrite hits and near misses, 82 messages) + the first 40 (thorough: 200) messages of each repository .dlt example + the repository .asc/.txt/.log examples (prefixes). Mutation operators, each enumerated completely over every seed: (a) every truncation point, (b) every offset x {00,01,7F,80,FF,b^1,b^80}, (b2) every offset x 16-bit {0,FFFF,1} / 32-bit {0,FFFFFFFF} windows, (c) every recorded header/type-info/length/numeric/service-id/timestamp field x boundary table (service ids: all known ids, flag bytes: all 256 values), (d) every ordered pair splice of generated DLT seeds at message boundaries, (e) every pair of fields at most 8 apart x corner values for the file-transfer seed (thorough: every pair of adjacent field corruptions x full boundary table for control and file-transfer seeds), (b3) text seeds: every offset replaced by a multi-byte UTF-8 character (a symbol and two non-ASCII white-space characters), (g) uncorrupted multi-lifecycle histories: the boot-trace product of the C08 explorer (1 ECU x 1..2 boots, 2 ECUs x up to (2,2) boots x every interleaving) as valid DLT files, (h) every lifecycle event sequence up to depth 3 over the 40-symbol alphabet and up to depth 6 over the suspend/resume alphabet of the C05-C07 explorer (detection + listing only; thorough: depth 4 / 8), (f) grammar products of text lines (incl. all ordered pairs of 14 odd tags incl. short multi-byte ones for logcat and generic logs) (timestamp forms x pid/level/tag/text shapes for logcat, time/channel/id/dlc/data for CAN-ASC incl. header lines, date/level/tag for generic logs). Every case runs the full chain on the real code: reader by extension, header/payload text, argument iteration, to_write, EacStats, lifecycle detection + listing, time sort, 10 filters (matches, match_filters, filter_as_streams), FileTransfer(save)/NonVerbose/SomeIp/CAN/Muniic/Rewrite/Anonymize plugins. Oracle: no panic (overflow checks on), no process death (worker isolation), no allocation request >= 32 MiB whose size the unmutated seeds never request. Non-trivial = at least one message was parsed or a violation occurred.".into(),
             assumptions: vec!["crash-freedom is decided for the enumerated neighbourhood, not for all byte strings".into(),
                 "FIBEX-configured plugins are re-created every 300 cases (their state carries over within such a window); a panic is re-checked on the single case by replay".into(),
                 "serial-framed DLT is covered through the byte operators on seeds re-framed with DLS markers".into()],
-            budget_s: (45, 1500),
+            budget_s: (150, 1800),
             workers: 0,
             required_landmarks: vec!["parsed_messages", "multi_lifecycle", "op_truncate", "op_subst", "op_field", "op_splice", "op_grammar", "op_wide_subst", "op_multibyte", "op_lc_history", "op_lc_sequence", "op_field_pair", "file_transfer_autosaved", "fmt_asc", "fmt_txt", "fmt_log", "fmt_serial"],
         }
@@ -778,6 +782,36 @@ impl Prop for C03 {
         if !done {
             return;
         }
+        // (e0) pairs of nearby fields of the file-transfer seed (announced sizes interact: file size x number of
+        // packages x buffer size), corner values only
+        ctx.begin_family("field_pairs_near", "file-transfer seed: every pair of fields at most 8 fields apart x corner values {0,1,max/2,max}^2");
+        'e0: for s in gen.iter().filter(|s| s.name == "file_transfer") {
+            for w1 in 0..s.fields.len() {
+                for w2 in w1 + 1..s.fields.len().min(w1 + 9) {
+                    let (f1, f2) = (&s.fields[w1], &s.fields[w2]);
+                    let corners = |w: usize| -> Vec<u64> { let b = boundary(w); vec![b[0], b[1], b[3], b[6]] };
+                    for v1 in corners(f1.width) {
+                        for v2 in corners(f2.width) {
+                            if ctx.mine() {
+                                let mut b = s.bytes.clone();
+                                put(&mut b, f1, v1);
+                                put(&mut b, f2, v2);
+                                ctx.landmark("op_field_pair");
+                                judge(ctx, &mut sh, &s.name, s.ext, &b, &|| json!({"op": "field_pair", "seed": s.name, "ext": s.ext, "bytes_hex": hexs(&b)}));
+                                check_time!(done);
+                                if !done {
+                                    break 'e0;
+                                }
+                            }
+                        }
+                    }
+                }
+            }
+        }
+        ctx.end_family(done);
+        if !done {
+            return;
+        }
         // (a) truncation
         ctx.begin_family("truncate", "every truncation point of every seed");
         'a: for s in gen.iter().chain(serial.iter()).chain(text.iter()).chain(repo.iter()) {
@@ -819,7 +853,7 @@ impl Prop for C03 {
             return;
         }
         // (b3) text formats: every offset replaced by a multi-byte UTF-8 character (the result stays valid UTF-8)
-        ctx.begin_family("multibyte", "text seeds: every offset replaced by a 3-byte UTF-8 character (byte offsets vs char boundaries)");
+        ctx.begin_family("multibyte", "text seeds: every offset replaced by a multi-byte UTF-8 character: EURO SIGN, IDEOGRAPHIC SPACE, NO-BREAK SPACE (byte offsets vs char boundaries, non-ASCII white space)");
         'm: for s in text.iter() {
             if !s.bytes.is_ascii() {
                 continue;
@@ -828,15 +862,18 @@ impl Prop for C03 {
                 if s.bytes[off] == b'\n' {
                     continue;
                 }
-                if ctx.mine() {
-                    let mut b = s.bytes[..off].to_vec();
-                    b.extend_from_slice("\u{20ac}".as_bytes());
-                    b.extend_from_slice(&s.bytes[off + 1..]);
-                    ctx.landmark("op_multibyte");
-                    judge(ctx, &mut sh, &s.name, s.ext, &b, &|| json!({"op": "multibyte", "seed": s.name, "offset": off, "ext": s.ext, "bytes_hex": hexs(&b)}));
-                    check_time!(done);
-                    if !done {
-                        break 'm;
+                // a symbol, and white space that is not ASCII (regular expressions count it as \\s, byte arithmetic does not)
+                for ch in ["\u{20ac}", "\u{3000}", "\u{a0}"] {
+                    if ctx.mine() {
+                        let mut b = s.bytes[..off].to_vec();
+                        b.extend_from_slice(ch.as_bytes());
+                        b.extend_from_slice(&s.bytes[off + 1..]);
+                        ctx.landmark("op_multibyte");
+                        judge(ctx, &mut sh, &s.name, s.ext, &b, &|| json!({"op": "multibyte", "seed": s.name, "offset": off, "ext": s.ext, "bytes_hex": hexs(&b)}));
+                        check_time!(done);
+                        if !done {
+                            break 'm;
+                        }
                     }
                 }
             }
@@ -961,36 +998,6 @@ impl Prop for C03 {
             for s in gen.iter().filter(|s| s.name == "file_transfer") {
                 eprintln!("DUMP {} {}", hexs(&s.bytes), s.fields.iter().map(|f| format!("{}:{}:{}", f.off, f.width, f.kind)).collect::<Vec<_>>().join(","));
             }
-        }
-        // (e0) pairs of nearby fields of the file-transfer seed (announced sizes interact: file size x number of
-        // packages x buffer size), corner values only
-        ctx.begin_family("field_pairs_near", "file-transfer seed: every pair of fields at most 8 fields apart x corner values {0,1,max/2,max}^2");
-        'e0: for s in gen.iter().filter(|s| s.name == "file_transfer") {
-            for w1 in 0..s.fields.len() {
-                for w2 in w1 + 1..s.fields.len().min(w1 + 9) {
-                    let (f1, f2) = (&s.fields[w1], &s.fields[w2]);
-                    let corners = |w: usize| -> Vec<u64> { let b = boundary(w); vec![b[0], b[1], b[3], b[6]] };
-                    for v1 in corners(f1.width) {
-                        for v2 in corners(f2.width) {
-                            if ctx.mine() {
-                                let mut b = s.bytes.clone();
-                                put(&mut b, f1, v1);
-                                put(&mut b, f2, v2);
-                                ctx.landmark("op_field_pair");
-                                judge(ctx, &mut sh, &s.name, s.ext, &b, &|| json!({"op": "field_pair", "seed": s.name, "ext": s.ext, "bytes_hex": hexs(&b)}));
-                                check_time!(done);
-                                if !done {
-                                    break 'e0;
-                                }
-                            }
-                        }
-                    }
-                }
-            }
-        }
-        ctx.end_family(done);
-        if !done {
-            return;
         }
         // (h) lifecycle event sequences (alphabets of the C05-C07 explorer), detection + listing only
         {
